@@ -38,7 +38,7 @@ ASSUMPTIONS = ['RefCounter uses exact rationals on the float stamps actually sup
                'second evaluation restarts the count)', 'stamps are expressed in the default unit (spec.unit)']
 REAL = common.REAL_ALL
 STUBS = common.STUBS_ALL
-PROBES = ['gap_on_tolerance_edge', 'period_unit_differs_from_stamp_unit', 'more_than_one_bad_gap', 'offline_counter', 'tolerance_zero',
+PROBES = ['episode_after_reset', 'gap_on_tolerance_edge', 'period_unit_differs_from_stamp_unit', 'more_than_one_bad_gap', 'offline_counter', 'tolerance_zero',
           'one_stamp', 'combined_class']
 INTERLEAVING_MEASURE = 'distinct gap-class sequences'
 
@@ -195,6 +195,29 @@ def run(sc):
             r.crashes[e.exc_type] += 1
             r.violate('online-raised', seq=seq, stamps=stamps, config=_cfg(sc), **e.describe())
             return r
+        # a restart: reset() and a second episode on the same monitor object; the count restarts with the first stamp
+        if len(seq) >= 4 and sc.get('only_seq') is None or (sc.get('only_seq') is not None and sc.get('with_reset')):
+            try:
+                k = len(seq) // 2
+                M.api('reset', mon.reset)
+                r.faults['reset'] += 1
+                r.probes['episode_after_reset'] += 1
+                sc2 = dict(sc, t0=sc['t0'] + (1000 if sc['exact'] else 977))
+                st2 = stamps_for(seq[k:], sc2)
+                want2, ok2 = ref_counts(st2, sc2)
+                if ok2 or sc['exact']:
+                    for i in range(len(st2)):
+                        M.dt_update(mon, st2[i], [(v, data[v][i]) for v in vars_])
+                        r.evals += 1
+                        c = mon.sampling_violation_counter
+                        if c != want2[i]:
+                            r.violate('online-counter-after-reset', seq=seq, first_episode=stamps, second_episode=st2, step=i, got=c,
+                                      want=want2[i], config=_cfg(sc))
+                            return r
+            except M.ApiCrash as e:
+                r.crashes[e.exc_type] += 1
+                r.violate('online-raised', seq=seq, stamps=stamps, config=_cfg(sc), **e.describe())
+                return r
         # outputs unaffected by jitter
         if n not in perfect_out:
             try:
@@ -265,6 +288,7 @@ def shrinks(sc):
             c = copy.deepcopy(sc)
             c['only_seq'] = seq
             c['longs'] = []
+            c['with_reset'] = len(seq) >= 4
             yield c
         return
     seq = sc['only_seq']
